@@ -2,9 +2,16 @@
 
 Engine E3 (net): a real TelnetTransport writes application bytes (write /
 writeSequence groupings chosen by the tape) onto a simulated link; a second real
-TelnetTransport receives the wire stream under tape-chosen segmentation.
-Oracle: receiver's application data == bytes written; no command/negotiation
-callback ever fires.
+TelnetTransport receives the wire stream under tape-chosen segmentation.  In
+part of the runs the two applications accept a tape-chosen set of options
+(TRANSMIT-BINARY = 0 among them) and either side negotiates before / between the
+writes, the second application writes too, and a receiving application raises
+for a tape-chosen delivery (the link logs the error and carries on, as a layer
+that calls the protocol under log.callWithLogger does).
+Oracle: each application received exactly the bytes its peer's application wrote
+(once, in order), whatever was negotiated and whichever deliveries raised; LF
+went onto the wire as CR LF; no command/subnegotiation callback fires and no
+option callback about an option nobody requested.
 """
 from zope.interface import implementer
 
@@ -14,29 +21,59 @@ from detsim import net
 ID = "C38"
 ENGINE = "net"
 LEVEL = "exploration"
-TECHNIQUE = "deterministic simulation: seeded write grouping + wire segmentation between two real TelnetTransports"
-QUICK_RUNS = 60000
+TECHNIQUE = "deterministic simulation: seeded write grouping + option negotiation + raising receiver + wire segmentation between two real TelnetTransports"
+QUICK_RUNS = 36000
 TWIN_P = 0.08   # this share of the runs drives two independent instances of the scenario one after the other (detsim.runner._run_scenario)
 BATCH = 200
-COMPONENTS = {"real": ["twisted.conch.telnet.TelnetTransport.write/writeSequence", "twisted.conch.telnet.Telnet.dataReceived"],
-              "stub": ["TCP transport and delivery segmentation (detsim.net.Link)"]}
+COMPONENTS = {"real": ["twisted.conch.telnet.TelnetTransport.write/writeSequence", "twisted.conch.telnet.Telnet.dataReceived",
+                       "twisted.conch.telnet.Telnet.will/wont/do/dont and the option state maps (as far as they touch the data path)"],
+              "stub": ["TCP transport and delivery segmentation (detsim.net.Link); the layer below the receiver catches and logs an "
+                       "exception escaping from dataReceived and keeps the connection (log.callWithLogger behaviour)",
+                       "applications: record what they are given, accept a tape-chosen option set, raise on tape-chosen deliveries"]}
 RULE = ("run = 1..8 application writes (write or writeSequence, bytes from an alphabet rich in 0xFF, LF, NUL and telnet command bytes, no CR) "
-        "through a sender TelnetTransport, wire delivered in tape-chosen pieces; non-trivial = payload contains 0xFF or LF and the wire was cut at least once")
-ASSUMPTIONS = ["application data contains no CR (per the statement)"]
+        "through a sender TelnetTransport (30%: the other side writes as well), wire delivered in tape-chosen pieces; in half of the runs will/wont/do/dont "
+        "requests about 1-2 options (TRANSMIT-BINARY 0, ECHO, SGA, LINEMODE, 255, CR, LF, TERMINAL-TYPE) accepted by a tape-chosen policy are issued by either "
+        "side before/between the writes; in half of the runs the receiving application raises on tape-chosen deliveries and the link logs it and carries on; "
+        "non-trivial = payload contains 0xFF or LF and the wire was cut at least once")
+ASSUMPTIONS = ["application data contains no CR (per the statement)",
+               "an application exception aborts the processing of the wire chunk being delivered (it propagates out of dataReceived); what becomes of the rest "
+               "of THAT chunk is not judged: when a raising delivery happened in a chunk in which a negotiation command ended (the only place where application bytes are handed "
+               "over before the end of a chunk; the command itself and what follows it go unprocessed, so the two option state machines no longer agree) the "
+               "run only checks that nothing was duplicated so far and stops",
+               "LF -> CR LF on the wire is judged while TRANSMIT-BINARY is not in effect for the writer (RFC 856 changes the wire form; the statement's "
+               "end-to-end clause - the peer receives exactly the bytes written - is judged in every option state, both ends being the same implementation)",
+               "an endpoint requests will(o)/do(o) only for options its own application accepts"]
 
 ALPHABET = bytes([0xFF, 0xFF, 0xFF, 0x0A, 0x0A, 0x00, 0xF0, 0xFA, 0xFB, 0xFC, 0xFD, 0xFE, 0xF1, 0x41, 0x42, 0x20, 0x7F, 0x80])
+# option codes negotiated: TRANSMIT-BINARY first (the one option whose meaning is about the data path), the usual ones, and codes equal to stream-special bytes
+OPTIONS = [b"\x00", b"\x01", b"\x03", b"\x22", b"\xff", b"\x0d", b"\x0a", b"\x18"]
+BINARY = b"\x00"
+AMOUNTS = (1, 2, 3, 5, 8, 17, 64, 1000, None)
+NEG_CALLBACKS = ("enableLocal", "enableRemote", "disableLocal", "disableRemote")
+
+
+class AppError(Exception):
+    """What a receiving application raises for one delivery."""
 
 
 @implementer(telnet.ITelnetProtocol)
 class App:
-    def __init__(self, rec):
+    def __init__(self, rec, local_ok=(), remote_ok=()):
         self.rec = rec
+        self.local_ok = local_ok
+        self.remote_ok = remote_ok
+        self.armed = False      # raise on the next delivery
+        self.raised = 0
 
     def makeConnection(self, t):
         self.transport = t
 
     def dataReceived(self, data):
         self.rec.append(("data", data))
+        if self.armed:
+            self.armed = False
+            self.raised += 1
+            raise AppError("application failed while handling %d bytes" % len(data))
 
     def connectionLost(self, reason):
         self.rec.append(("lost",))
@@ -49,11 +86,11 @@ class App:
 
     def enableLocal(self, option):
         self.rec.append(("enableLocal", option))
-        return False
+        return option in self.local_ok
 
     def enableRemote(self, option):
         self.rec.append(("enableRemote", option))
-        return False
+        return option in self.remote_ok
 
     def disableLocal(self, option):
         self.rec.append(("disableLocal", option))
@@ -64,42 +101,193 @@ class App:
 
 def run(sim):
     nwrites = sim.draw_int(1, 8, "nwrites")
-    rec_a, rec_b = [], []
-    a = telnet.TelnetTransport(App, rec_a)
-    b = telnet.TelnetTransport(App, rec_b)
+    interleave = sim.draw_bool(0.5, "interleave")
+    neg_w = sim.draw_choice([0, 0, 1, 2], "negotiation_weight")       # up to this many requests before each write
+    raise_w = sim.draw_choice([0, 0, 1, 3], "raise_weight")           # tenths: chance that a delivery makes the application raise
+    duplex = sim.draw_bool(0.3, "duplex")                             # the second application writes too
+    opts = []
+    policy = {"A": (set(), set()), "B": (set(), set())}
+    if neg_w:
+        for _ in range(sim.draw_int(1, 2, "nopts")):
+            o = sim.draw_choice(OPTIONS, "option")
+            if o not in opts:
+                opts.append(o)
+        for name in ("A", "B"):
+            for o in opts:
+                if not sim.draw_bool(0.3, "refuse_local"):
+                    policy[name][0].add(o)
+                if not sim.draw_bool(0.3, "refuse_remote"):
+                    policy[name][1].add(o)
+    sim.config = {"nwrites": nwrites, "interleave": interleave, "negotiation_weight": neg_w, "raise_weight": raise_w, "duplex": duplex,
+                  "options": [o.hex() for o in opts],
+                  "policy": {n: {"local_ok": sorted(o.hex() for o in policy[n][0]), "remote_ok": sorted(o.hex() for o in policy[n][1])} for n in ("A", "B")}}
+    rec = {"A": [], "B": []}
+    tt = {"A": telnet.TelnetTransport(App, rec["A"], policy["A"][0], policy["A"][1]),
+          "B": telnet.TelnetTransport(App, rec["B"], policy["B"][0], policy["B"][1])}
+    a, b = tt["A"], tt["B"]
     link = net.Link(sim, a, b)
     link.connect()
-    sent = bytearray()
-    interleave = sim.draw_bool(0.5, "interleave")
-    for i in range(nwrites):
+    trans = {"A": link.a, "B": link.b}
+    peer = {"A": "B", "B": "A"}
+    sent = {"A": bytearray(), "B": bytearray()}        # application bytes written by that side
+    mark = {"A": 0, "B": 0}                            # how much of that side's output has been attributed
+    cmd_ends = {"A": [], "B": []}                      # offsets (in that side's output stream) just past each negotiation command it wrote
+    requested = set()
+    flags = {"unjudged": None}
+
+    def attribute(app_side=None):
+        """Attribute what each side wrote since the last call: the application's bytes (returned), or negotiation commands (3 bytes each)."""
+        grown = b""
+        for name in ("A", "B"):
+            cur = len(trans[name].written)
+            if cur == mark[name]:
+                continue
+            if name == app_side:
+                grown = bytes(trans[name].written[mark[name]:cur])
+            else:
+                cmd_ends[name].extend(range(mark[name] + 3, cur + 1, 3))
+            mark[name] = cur
+        return grown
+
+    def got(name):
+        return b"".join(e[1] for e in rec[name] if e[0] == "data")
+
+    def net_step():
+        """One tape-chosen network event (as Link.step); a delivery may make the receiving application raise, which the link logs."""
+        ev = link.enabled()
+        if not ev:
+            return False
+        kind, name = sim.draw_choice(ev, "net")
+        amount = None
+        if kind in ("xmit", "deliver"):
+            amount = sim.draw_choice(list(AMOUNTS)[::-1], "amount")  # index 0 = everything
+            if amount is not None:
+                sim.fault("segmentation")
+        if kind != "deliver":
+            link.do(kind, name, amount)
+            return True
+        app = tt[name].protocol
+        start = len(link.delivered[name])
+        app.armed = bool(raise_w) and sim.draw_int(0, 9, "app_raises") < raise_w
+        before = app.raised
+        with sim.guard("receiver-raised"):
+            try:
+                link.do(kind, name, amount)
+            except AppError:
+                # the layer below logs the application's error and keeps the connection (log.callWithLogger)
+                pass
+        app.armed = False
+        attribute()
+        if app.raised > before:
+            end = len(link.delivered[name])
+            sim.fault("app_raised")
+            sim.event("app-raised", name, end - start)
+            if any(start < p <= end for p in cmd_ends[peer[name]]):
+                # bytes were handed over in the middle of the chunk, in front of a negotiation command, and the exception cut the
+                # processing of the command and of the rest of the chunk short
+                sim.probe("raise_mid_chunk_rest_unjudged")
+                flags["unjudged"] = name
+                return False
+            if got(name):
+                sim.probe("raise_then_more_judged")
+        return True
+
+    def negotiate():
+        name = sim.draw_choice(["A", "B"], "neg_side")
+        o = sim.draw_choice(opts, "neg_opt")
+        kinds = [(k, w) for k, w in (("will", 3), ("do", 3), ("wont", 1), ("dont", 1))
+                 if not (k == "will" and o not in policy[name][0]) and not (k == "do" and o not in policy[name][1])]
+        k = sim.draw_weighted(kinds, "neg_kind")
+        sim.event("negotiate", name, k, o)
+        requested.add(o)
+        with sim.guard("sender-raised", k):
+            d = getattr(tt[name], k)(o)
+        d.addErrback(lambda f: None)      # OptionRefused / AlreadyEnabled / AlreadyDisabled / AlreadyNegotiating: not this property's business
+        attribute()
+        sim.probe("negotiation_request")
+
+    def write_one():
+        name = "B" if duplex and sim.draw_bool(0.4, "writer") else "A"
+        t = tt[name]
         if sim.draw_bool(0.4, "use_seq"):
             parts = [sim.draw_bytes(sim.draw_int(0, 6, "len"), ALPHABET) for _ in range(sim.draw_int(1, 4, "nparts"))]
             # ITransport.writeSequence takes any iterable of bytes: a list, a tuple, or a one-shot iterator / generator
             kind = sim.draw_choice(["list", "tuple", "iter", "generator"], "iovec")
-            sim.event("writeSequence", kind, *parts)
+            sim.event("writeSequence", name, kind, *parts)
             arg = parts if kind == "list" else tuple(parts) if kind == "tuple" else iter(parts) if kind == "iter" else (p for p in parts)
             with sim.guard("sender-raised", "writeSequence"):
-                a.writeSequence(arg)
+                t.writeSequence(arg)
             sim.probe("writeSequence")
             if kind in ("iter", "generator"):
                 sim.probe("writeSequence_one_shot_iterable")
-            for p in parts:
-                sent += p
+            data = b"".join(parts)
         else:
             data = sim.draw_bytes(sim.draw_int(0, 10, "len"), ALPHABET)
-            sim.event("write", data)
-            a.write(data)
-            sent += data
+            sim.event("write", name, data)
+            t.write(data)
+        sent[name] += data
+        wire = attribute(name)
+        st = t.options.get(BINARY)
+        if st is not None and (st.us.state == "yes" or st.us.negotiating):
+            sim.probe("write_in_binary_mode")
+        else:
+            # "line feeds sent as CR LF": every LF written is a CR LF pair on the wire and there is no other CR
+            n = data.count(b"\n")
+            sim.check("lf-as-crlf", wire.count(b"\r\n") == n and wire.count(b"\n") == n and wire.count(b"\r") == n, "wire",
+                      lambda: "%s wrote %r, wire %r" % (name, data, wire))
+        pst = tt[peer[name]].options.get(BINARY)
+        if b"\n" in data and pst is not None and pst.him.state == "yes":
+            sim.probe("lf_written_to_binary_receiver")
+
+    def finish():
+        lossy = flags["unjudged"]
+        for name in ("A", "B"):
+            w = peer[name]
+            g = got(name)
+            sim.event("received", name, g)
+            stray = [e for e in rec[name] if e[0] != "data" and not (e[0] in NEG_CALLBACKS and e[1] in requested)]
+            sim.check("no-command-fired", not stray, "receiver" if name == "B" else "sender",
+                      lambda: "%s callbacks fired: %r (peer sent %r)" % (name, stray[:3], bytes(sent[w])))
+            if lossy is not None:
+                # the run stopped early: nothing may have been delivered twice or out of order so far
+                sim.check("bytes-equal", bytes(sent[w]).startswith(g), "prefix",
+                          lambda: "%s received %r which is not a prefix of %r; wire %r" % (name, g, bytes(sent[w]), bytes(trans[w].written)))
+            else:
+                sim.check("bytes-equal", g == bytes(sent[w]), "receiver" if name == "B" else "sender-side",
+                          lambda: "%s: peer sent %r got %r wire %r (%d raising deliveries)" % (name, bytes(sent[w]), g, bytes(trans[w].written), tt[name].protocol.raised))
+        if not duplex:
+            sim.check("sender-quiet", not [e for e in rec["A"] if e[0] == "data"], "sender", "sender app saw %r" % (rec["A"][:3],))
+        allsent = bytes(sent["A"] + sent["B"])
+        sim.nontrivial = (b"\xff" in allsent or b"\n" in allsent) and sim.faults.get("segmentation", 0) > 0
+
+    for i in range(nwrites):
+        if neg_w:
+            for _ in range(sim.draw_int(0, neg_w, "nrequests")):
+                negotiate()
+                for _ in range(sim.draw_int(0, 4, "neg_netsteps")):
+                    if not net_step():
+                        break
+                if flags["unjudged"]:
+                    return finish()
+        write_one()
         if interleave:
-            with sim.guard("receiver-raised"):
-                for _ in range(sim.draw_int(0, 3, "netsteps")):
-                    link.step()
-    with sim.guard("receiver-raised"):
-        link.run()
-    got = b"".join(e[1] for e in rec_b if e[0] == "data")
-    other = [e for e in rec_b if e[0] not in ("data",)]
-    sim.event("received", got)
-    sim.check("no-command-fired", not other, "receiver", "callbacks fired: %r (sent %r)" % (other[:3], bytes(sent)))
-    sim.check("bytes-equal", got == bytes(sent), "receiver", "sent %r got %r wire %r" % (bytes(sent), got, bytes(link.a.written)))
-    sim.check("sender-quiet", not rec_a, "sender", "sender app saw %r" % (rec_a[:3],))
-    sim.nontrivial = (b"\xff" in sent or b"\n" in sent) and sim.faults.get("segmentation", 0) > 0
+            for _ in range(sim.draw_int(0, 3, "netsteps")):
+                if not net_step():
+                    break
+            if flags["unjudged"]:
+                return finish()
+    n = 0
+    while n < 100000 and net_step():
+        n += 1
+    return finish()
+
+
+MUTANTS = [
+    "telnet.py TelnetTransport.writeSequence bypassing IAC escaping / LF->CRLF -> caught (receiver-raised:ValueError; bytes-equal:receiver) [seeds C38-bulk-fastpath-odd-iac, C38-r2, C38-r3]",
+    "telnet.py dataReceived: application-data buffer kept on the instance and cleared only after a successful applicationDataReceived (bytes of a raising delivery "
+    "handed over again with the next chunk) -> caught (bytes-equal:receiver) [raising receiver family]",
+    "telnet.py dataReceived: CR handled as ordinary data once the peer's TRANSMIT-BINARY is enabled while write() keeps sending CR LF -> caught (bytes-equal:receiver) "
+    "[option negotiation family]",
+    "telnet.py ProtocolTransportMixin.write: LF no longer translated to CR LF -> caught ONLY by lf-as-crlf:wire (a bare LF passes the receiver unchanged, so the end-to-end clause holds)",
+    "telnet.py dataReceived, flush in front of a negotiation command: `del appDataBuffer[:]` dropped -> caught (bytes-equal:receiver/sender-side/prefix) [negotiation between writes]",
+]
